@@ -46,6 +46,8 @@ pub enum MetaVal {
     Generic(TV),
     V1(String),
     V2(String, i64),
+    /// a value TOML cannot represent (an integer above i64::MAX): writing it must fail and leave the layer as it was
+    Unser,
 }
 
 impl MetaVal {
@@ -54,6 +56,7 @@ impl MetaVal {
             MetaVal::Generic(t) => t.clone(),
             MetaVal::V1(v) => TV::Table(vec![("version".into(), TV::Str(v.clone()))]),
             MetaVal::V2(v, r) => TV::Table(vec![("version".into(), TV::Str(v.clone())), ("rev".into(), TV::Int(*r))]),
+            MetaVal::Unser => TV::Table(vec![("stub".into(), TV::Bool(true))]),
         }
     }
     pub fn to_json(&self) -> Value {
@@ -61,11 +64,14 @@ impl MetaVal {
             MetaVal::Generic(t) => json!({"generic": t.to_json()}),
             MetaVal::V1(v) => json!({"v1": v}),
             MetaVal::V2(v, r) => json!({"v2": [v, r]}),
+            MetaVal::Unser => json!({"unserializable": true}),
         }
     }
     pub fn from_json(v: &Value) -> MetaVal {
         if let Some(g) = v.get("generic") {
             MetaVal::Generic(TV::from_json(g))
+        } else if v.get("unserializable").is_some() {
+            MetaVal::Unser
         } else if let Some(s) = v.get("v1") {
             MetaVal::V1(s.as_str().unwrap().into())
         } else {
@@ -102,7 +108,7 @@ impl MetaT for V1 {
     fn from_val(v: &MetaVal) -> Self {
         match v {
             MetaVal::V1(s) | MetaVal::V2(s, _) => V1 { version: s.clone() },
-            MetaVal::Generic(_) => V1 { version: "from-generic".into() },
+            MetaVal::Generic(_) | MetaVal::Unser => V1 { version: "from-generic".into() },
         }
     }
 }
@@ -114,7 +120,7 @@ impl MetaT for V2 {
         match v {
             MetaVal::V2(s, r) => V2 { version: s.clone(), rev: *r },
             MetaVal::V1(s) => V2 { version: s.clone(), rev: 0 },
-            MetaVal::Generic(_) => V2 { version: "from-generic".into(), rev: -1 },
+            MetaVal::Generic(_) | MetaVal::Unser => V2 { version: "from-generic".into(), rev: -1 },
         }
     }
 }
@@ -295,6 +301,14 @@ impl<MAC: CauseLike, RAC: CauseLike> RefOps for LayerRef<HB, MAC, RAC> {
             MetaVal::Generic(t) => self.write_metadata(t.to_toml_table()),
             MetaVal::V1(s) => self.write_metadata(V1 { version: s.clone() }),
             MetaVal::V2(s, r) => self.write_metadata(V2 { version: s.clone(), rev: *r }),
+            MetaVal::Unser => {
+                #[derive(Serialize)]
+                struct Big {
+                    version: String,
+                    too_big: u64,
+                }
+                self.write_metadata(Big { version: "1".into(), too_big: u64::MAX })
+            }
         }
         .map_err(|e| format!("{e:?}"))
     }
@@ -599,6 +613,14 @@ pub fn run_history_in(root: &Path, h: &[Op], names: &[&str], cleanup: bool) -> H
                     };
                     let others_before = others_snapshot(&bc.layers_dir, lname);
                     let res = match op {
+                        Op::WriteMetadata { value: MetaVal::Unser, .. } => {
+                            out.classes.push("write:metadata-that-cannot-be-serialised");
+                            // must be refused, and the content metadata (incl. the types) must stay as it was
+                            match lr.w_metadata(&MetaVal::Unser) {
+                                Err(_) => Ok(()),
+                                Ok(()) => Err("write_metadata accepted a value TOML cannot represent".to_string()),
+                            }
+                        }
                         Op::WriteMetadata { value, .. } => {
                             out.classes.push("write:metadata");
                             model.layer(lname).toml.as_mut().unwrap().metadata = Some(value.tv());
@@ -680,6 +702,7 @@ pub fn metaval_strategy() -> impl Strategy<Value = MetaVal> {
             Just(TV::table(vec![("version", TV::s("g")), ("rev", TV::s("not-int"))])),
             Just(TV::table(vec![("version", TV::s("g")), ("extra", TV::table(vec![("nested", TV::Array(vec![TV::Bool(true)]))]))])),
         ].prop_map(MetaVal::Generic),
+        1 => Just(MetaVal::Unser),
     ]
 }
 
@@ -793,7 +816,7 @@ fn reduced_alphabet() -> Vec<Op> {
     ops
 }
 
-fn absorb(ctx: &Ctx, h: &[Op], o: HistOutcome, sub: &str) -> bool {
+fn absorb(ctx: &Ctx, h: &[Op], o: crate::histworker::Outcome, sub: &str, nnames: usize) -> bool {
     ctx.eval();
     ctx.extra_add("steps_executed", o.steps as u64);
     for c in &o.classes {
@@ -808,7 +831,7 @@ fn absorb(ctx: &Ctx, h: &[Op], o: HistOutcome, sub: &str) -> bool {
     }
     match o.fail {
         None => true,
-        Some(f) => ctx.check_case(sub, Err(f), || json!({"names": NAMES.len(), "history": history_json(h)})),
+        Some(f) => ctx.check_case(sub, Err(f), || json!({"names": nnames, "history": history_json(h)})),
     }
 }
 
@@ -850,18 +873,25 @@ pub fn run(ctx: &Ctx) {
         }
     }
     ctx.class_n("exhaustive:histories", hs.len() as u64);
-    let names1 = [NAMES[0], NAMES[1]]; // a second name sharing the prefix, never requested: must stay absent
-    let outs = par_map(&hs, ncpu(), |h| run_history(&scratch.path, h, &names1));
-    for (h, o) in hs.iter().zip(outs) {
-        if !absorb(ctx, h, o, "exhaustive") {
-            break;
+    // two names sharing a prefix; the second is never requested and must stay absent. Histories run in contained worker
+    // processes (one per core) so that a hard crash of the code under test is a failed case, not a dead engine.
+    let chunks: Vec<&[Vec<Op>]> = hs.chunks(hs.len().div_ceil(ncpu())).collect();
+    let outs: Vec<Vec<crate::histworker::Outcome>> = par_map(&chunks, ncpu(), |chunk| {
+        let mut w = crate::histworker::HistWorker::new("c01", 2, &scratch.path);
+        chunk.iter().map(|h| w.run(&history_json(h))).collect()
+    });
+    'outer: for (chunk, res) in chunks.iter().zip(outs) {
+        for (h, o) in chunk.iter().zip(res) {
+            if !absorb(ctx, h, o, "exhaustive", 2) {
+                break 'outer;
+            }
         }
     }
     // sampled deeper
     let thorough = ctx.tier == Tier::Thorough;
     let nn = if thorough { 5 } else { 3 };
     let maxlen = if thorough { 60 } else { 24 };
-    let names: Vec<&str> = NAMES[..nn].to_vec();
+    let worker = RefCell::new(crate::histworker::HistWorker::new("c01", nn, &scratch.path));
     ctx.run_prop(
         "sampled",
         prop_oneof![
@@ -871,7 +901,7 @@ pub fn run(ctx: &Ctx) {
         ctx.tier.pick(1500, 40_000),
         |h| json!({"names": nn, "history": history_json(h)}),
         |h| {
-            let o = run_history(&scratch.path, h, &names);
+            let o = worker.borrow_mut().run(&history_json(h));
             ctx.eval();
             ctx.extra_add("steps_executed", o.steps as u64);
             for c in &o.classes {
@@ -896,8 +926,7 @@ pub fn run(ctx: &Ctx) {
 pub fn replay(ctx: &Ctx, _sub: &str, case: &Value) {
     let scratch = Scratch::new("c01r");
     let (h, nn) = if case.is_array() { (history_from_json(case), 2) } else { (history_from_json(&case["history"]), case["names"].as_u64().unwrap_or(3) as usize) };
-    let names: Vec<&str> = if nn == 2 { vec![NAMES[0], NAMES[1]] } else { NAMES[..nn.min(5)].to_vec() };
-    let o = run_history(&scratch.path, &h, &names);
+    let o = crate::histworker::HistWorker::new("c01", nn, &scratch.path).run(&history_json(&h));
     ctx.eval();
     if let Some(f) = o.fail {
         ctx.check_case("replay", Err(f), || case.clone());
